@@ -393,8 +393,12 @@ def run_history(h):
                 spec.remove_at(op[1])
             elif kind == 'copy':
                 setattr(other, op[1], op[2])
+                src_before = observe(other)
                 setattr(root, op[1], getattr(other, op[1]))
                 spec.set(op[1].upper(), op[2])
+                # a child taken from another element is copied by value: the source keeps it
+                if observe(other) != src_before:
+                    extra.append(('source-changed', '%r -> %r' % (src_before[0], observe(other)[0])))
             elif kind == 'read':
                 p = getattr(root, op[1])
                 len(p)
@@ -511,6 +515,9 @@ def run_history(h):
         inv = invariants(root)
         half = []
         for x in extra:
+            if isinstance(x, tuple) and x[0] == 'source-changed':
+                inv = inv + ['copy-changed-its-source:' + x[1][:120]]
+                continue
             if isinstance(x, tuple) and x[0] == 'detached':
                 if x[1].parent is not None or any(x[1] is y for y in root.children):
                     inv = inv + ['detached-child-still-listed:%s' % x[1].name]
